@@ -105,6 +105,12 @@ func (k Keeper) InitGenesis(
 			recordKeyBytes, _ := hexutil.Decode(recordKey)
 			k.AppendUndelegationToMature(ctx, epoch, recordKeyBytes)
 			k.SetUndelegationMaturityEpoch(ctx, recordKeyBytes, epoch)
+			// x/delegation does not export hold counts: each holder re-places its hold at
+			// genesis (x/delegation is initialized before this module), so that the record
+			// is not released before the maturity recorded above is reached.
+			if err := k.delegationKeeper.IncrementUndelegationHoldCount(ctx, recordKeyBytes); err != nil {
+				panic(fmt.Errorf("could not hold undelegation %s: %s", recordKey, err))
+			}
 		}
 	}
 	// ApplyValidatorChanges only gets changes and hence the vote power must be set here.
